@@ -3,7 +3,7 @@
    for a tensor of shape [bs], following torch's own two stages (Spec/C03_TorchIndex.v computes the shapes of the same
    two stages):
    (A) basic ops left to right: int / 0-dim integer tensor = select (negative values wrap once), slice = the k-th
-       element of range(*slice.indices(n)), None = a new size-1 dim that comes from no source dim, Ellipsis = the
+       element of the range given by slice.indices(n), None = a new size-1 dim that comes from no source dim, Ellipsis = the
        missing full slices;
    (B) advanced indices given by their VALUES: integer arrays (shape + row-major values) and boolean masks (the list
        of their True positions in row-major order = nonzero()) are broadcast together; the coordinate [b] inside the
